@@ -107,3 +107,44 @@ def array_separators(rep, R, facts):
     rep.check(R, 'encode_array|separator-all-but-first', first_ok, 'val_sep for i != 0', 'the element separator is not emitted for exactly the elements after the first', loc)
     rep.check(R, 'encode_array|trailing-comma-flag', trailing_ok, 'trailing comma iff trailing_comma() && !is_empty()',
               f'the trailing comma is not printed exactly when trailing_comma() && !is_empty(): {trailing_detail}', loc)
+
+
+def clippy_crossref(rep, rid):
+    """Independent, type-resolved confirmation of the who-may-call rule with clippy's `disallowed_methods` (thorough tier).
+    A disagreement between clippy and the rule library is reported as a checker error (analysis-incomplete), not as a property violation."""
+    import os
+    import re
+    import subprocess
+    import tempfile
+    from .core import CACHE, repo_root
+    R = rep.rule(rid, 'cross-reference: clippy::disallowed_methods (type-resolved) finds no call of the banned order-breaking methods, and does '
+                 'find the control method (shift_remove), in toml_edit and toml with and without preserve_order', floor=2)
+    banned = ['indexmap::map::IndexMap::swap_remove', 'indexmap::map::IndexMap::swap_remove_entry', 'indexmap::map::IndexMap::swap_remove_full',
+              'indexmap::map::IndexMap::swap_remove_index', 'indexmap::map::IndexMap::swap_indices', 'indexmap::map::IndexMap::sort_unstable_keys',
+              'indexmap::map::IndexMap::sort_unstable_by', 'indexmap::map::OccupiedEntry::swap_remove', 'indexmap::map::OccupiedEntry::swap_remove_entry',
+              'std::vec::Vec::swap_remove', 'slice::sort_unstable', 'slice::sort_unstable_by', 'slice::sort_unstable_by_key']
+    control = ['indexmap::map::IndexMap::shift_remove', 'indexmap::map::OccupiedEntry::shift_remove']
+    conf = tempfile.mkdtemp(prefix='clippyconf.', dir='/tmp')
+    try:
+        with open(os.path.join(conf, 'clippy.toml'), 'w') as f:
+            f.write('disallowed-methods = [\n' + ''.join(f'  {{ path = "{m}", reason = "{"control" if m in control else "banned"}" }},\n' for m in banned + control) + ']\n')
+        for label, feats in (('default', []), ('preserve_order', ['--features', 'toml/preserve_order'])):
+            env = dict(os.environ, CLIPPY_CONF_DIR=conf, CARGO_NET_OFFLINE='true', CARGO_TARGET_DIR=os.path.join(CACHE, 'target-clippy'))
+            subprocess.run(['rm', '-rf'] + [os.path.join(CACHE, 'target-clippy', 'debug', '.fingerprint', d) for d in os.listdir(os.path.join(CACHE, 'target-clippy', 'debug', '.fingerprint'))
+                                            if d.startswith(('toml-', 'toml_edit-'))] if os.path.isdir(os.path.join(CACHE, 'target-clippy', 'debug', '.fingerprint')) else ['true'])
+            p = subprocess.run(['cargo', '+nightly', 'clippy', '--offline', '--no-deps', '-p', 'toml_edit', '-p', 'toml'] + feats +
+                               ['--', '-A', 'clippy::all', '-W', 'clippy::disallowed_methods'], cwd=repo_root(), env=env, capture_output=True, text=True)
+            text = p.stderr
+            if p.returncode != 0 and 'error' in text and 'could not compile' in text:
+                rep.incomplete(R, f'{label}|clippy-run', 'clippy did not run: ' + text[-400:])
+                continue
+            hits = re.findall(r'use of a disallowed method `([^`]+)`[\s\S]*?--> ([^\n]+)', text)
+            bad = [(m, w) for m, w in hits if any(m.endswith(b.split('::', 1)[-1]) or m == b for b in banned) and not any(c.split('::')[-1] == m.split('::')[-1] for c in control)]
+            ctl = [(m, w) for m, w in hits if m.split('::')[-1].startswith('shift_remove')]
+            rep.check(R, f'{label}|no-banned-call', not bad, f'{len(hits)} lint hits, none banned', f'clippy reports banned calls the rule library must also report: {bad[:3]}', '')
+            if not ctl:
+                rep.incomplete(R, f'{label}|control', 'clippy did not report the control method shift_remove: the cross-reference is not effective')
+            else:
+                rep.ok(R, f'{label}|control', f'control found {len(ctl)} times')
+    finally:
+        subprocess.run(['rm', '-rf', conf])
